@@ -774,6 +774,15 @@ public:
     charactersRaw(const XObjectPtr&     xobject);
 
 
+#if defined(APACHE_XALAN_C_VERIF)
+    // Verification hook:  sizes of the stacks, lists and per-transformation
+    // tables of the execution context and of the objects it drives.  Between
+    // two transformations they must have the values they have in a newly
+    // created context.
+    void
+    verifSnapshot(XalanVector<XalanSize_t>&     theSizes) const;
+#endif
+
     // These interfaces are inherited from XPathExecutionContext...
 
     virtual void
